@@ -92,6 +92,14 @@ static void setup_signers()
 }
 
 static bool make_sig(const Signer &s, const octets &prep, const octets &hash, const octets &left, int hashalgo, octets &pkt);
+// ECDSA with a digest longer than the curve order gets its own oracle kind (= its own finding key)
+static std::string sigverify_kind(const char *base, const Signer &s, int h)
+{
+	if (s.algo == TMCG_OPENPGP_PKALGO_ECDSA && L::AlgorithmHashLength((tmcg_openpgp_hashalgo_t)h) > 32)
+		return std::string(base) + ".ecdsa-digest-longer-than-order";
+	return base;
+}
+
 static void make_blocks()
 {
 	for (size_t i = 0; i < SG.size(); i++)
@@ -399,12 +407,12 @@ static void fam_doc()
 							std::vector<std::string> a = { num(s.algo) };
 							a.insert(a.end(), s.fields.begin(), s.fields.end());
 							a.push_back(hex(pkt)), a.push_back(type ? "text" : "binary"), a.push_back(ver == 5 ? "000000000000" : ""), a.push_back(hex(doc));
-							RO.emit("pgp.sigverify", a, "1", cid);
+							RO.emit(sigverify_kind("pgp.sigverify", s, h).c_str(), a, "1", cid);
 						}
 						if (TH && ver == 4 && di == 0 && (h == 8 || h == 10 || h == 2))
 						{
 							// secondary judge (gpg, if installed): self-signed key + detached signature
-							RO.emit("pgp.gpgverify", { hex(s.block), num(s.algo), hex(pkt), hex(doc), type ? "text" : "binary" }, "1", cid);
+							RO.emit(sigverify_kind("pgp.gpgverify", s, h).c_str(), { hex(s.block), num(s.algo), hex(pkt), hex(doc), type ? "text" : "binary" }, "1", cid);
 						}
 						if (di != 0 && !(di == 2 && type == 1))
 							continue;
